@@ -86,7 +86,7 @@ CHECKS.update({
          "DESIGN.md section 6, C11"),
  "C12": ("model_checking",
          "deviation-bounded exhaustive lattice search (E1) on the real maximum_color command",
-         "Input kind (4 nanoemoji formats, third-party COLRv1/v0) x --bitmaps x --colr_version x --keep_glyph_names x space glyph x kerning/mark lookups x palettes x glyph names x zero-width colour glyph, <=1 (quick) / <=2 (thorough) deviations: name-keyed facts unchanged, tables added, pictures of all colour tables equal for every reachable colour glyph, O-STRUCT, stripped-names output equal except post.",
+         "Input kind (4 nanoemoji formats, third-party COLRv1/v0) x --bitmaps x --colr_version x --keep_glyph_names x space glyph x kerning/mark lookups x palettes x glyph names x zero-width colour glyph x hhea metrics differing from typo metrics x line gap x seven colour glyphs, <=1 (quick) / <=2 (thorough) deviations: name-keyed facts unchanged, tables added, pictures of all colour tables equal for every reachable colour glyph, O-STRUCT, stripped-names output equal except post.",
          "CBDT pictures are compared loosely (pngquant, antialiasing); foreground colour is black in bitmaps.",
          "DESIGN.md section 6, C12"),
  "C13": ("model_checking",
@@ -96,7 +96,7 @@ CHECKS.update({
          "DESIGN.md section 6, C13"),
  "C16": ("exploration",
          "exhaustive full products of boundary alphabets through paint.transformed / apply_transform with a compile-decompile round trip",
-         "(i) b=c=0: 40 scale x 40 scale x 30 x 30 translation values (quick: <=3 entries off identity, 161k; thorough: all 1.44M); (ii) 8^6 general matrices; (iii) 8 gradient geometries x ~390 affines: emitted chain denotes the input; compiled and decompiled it raises or equals the input within fixed-point precision; gradient colours at corresponding points; uniform x residual = original. exhaustive:true.",
+         "(i) b=c=0: 40 scale x 40 scale x 30 x 30 translation values (quick: <=3 entries off identity, 161k; thorough: all 1.44M); (ii) 8^6 general matrices; (iii) 8 gradient geometries x ~390 affines: emitted chain denotes the input; compiled and decompiled it raises or equals the input within fixed-point precision; gradient colours at corresponding points; uniform x residual = original; (iv) font-level sub-lattice of real builds; (v) every transform-paint class (incl. rotate, skew) x small field alphabets: gettransform() against the spec formula and read back through the binary. exhaustive:true.",
          "fontTools raises on out-of-range fixed-point fields (measured).",
          "DESIGN.md section 6, C16"),
  "C17": ("fault_enumeration",
